@@ -74,6 +74,11 @@ func init() {
 				items = append(items, "reset")
 				continue
 			}
+			if strings.HasPrefix(it, "cfg=") { // the owner reconfigures the extension between upgrades
+				ext.Parameters = parseCfg14(it[4:])
+				items = append(items, "cfg")
+				continue
+			}
 			res := guard(func() string {
 				acc, err := ext.Negotiate(mkOption(it))
 				if err != nil {
@@ -89,13 +94,19 @@ func init() {
 		p, ok := ext.Accepted()
 		// each offer alone against a fresh negotiator with the same configuration
 		var solo []string
+		cur := a[0]
 		for _, it := range a[1:] {
 			if it == "reset" {
 				solo = append(solo, "r")
 				continue
 			}
+			if strings.HasPrefix(it, "cfg=") {
+				cur = it[4:]
+				solo = append(solo, "c")
+				continue
+			}
 			solo = append(solo, guard(func() string {
-				fresh := wsflate.Extension{Parameters: parseCfg14(a[0])}
+				fresh := wsflate.Extension{Parameters: parseCfg14(cur)}
 				acc, err := fresh.Negotiate(mkOption(it))
 				if err != nil {
 					return "e"
@@ -197,6 +208,20 @@ func genC14(tier string, r *rng) {
 		var items []string
 		for j := 0; j < k; j++ {
 			items = append(items, alpha[r.intn(len(alpha))])
+		}
+		run("neg " + cfgs[r.intn(len(cfgs))] + " " + strings.Join(items, " "))
+	}
+	// the same Extension value serving upgrade after upgrade with its Parameters changed in between (Reset, then a
+	// new configuration): the answer follows the configuration in force
+	for i := 0; i < n/6; i++ {
+		var items []string
+		for u := 0; u < 2+r.intn(2); u++ {
+			if u > 0 {
+				items = append(items, "reset", "cfg="+cfgs[r.intn(len(cfgs))])
+			}
+			for j := 0; j < 1+r.intn(2); j++ {
+				items = append(items, alpha[r.intn(len(alpha)-1)])
+			}
 		}
 		run("neg " + cfgs[r.intn(len(cfgs))] + " " + strings.Join(items, " "))
 	}
